@@ -44,8 +44,9 @@ LEVEL_TEXT = (
     "The model is of /repo with the F17 fix commits.")
 LEVEL_NOTE = (
     "Trusted: Lean kernel; harness/sdk.py (interpreter of the host AST through the SDK API, canonicalisation); the "
-    "model abstracts LabelManager's set to counters and `_used_array_addresses` to a counter. EPR operations are not "
-    "in this model (owned by C09/C10's builder models). Measurement (M) registers are a separate pool that the SDK "
+    "model abstracts LabelManager's set to counters and `_used_array_addresses` to a counter. EPR operations are in "
+    "the model by their register discipline only; their emitted code is checked statically on the real builder's "
+    "subroutines (inside a loop the loop register is written only by its own increment; also nested in conn.loop). Measurement (M) registers are a separate pool that the SDK "
     "recycles at flush: more than 16 register-measurements between two flushes fail by design and are modelled so.")
 TECHNIQUE = "Lean 4 proof (structural induction over host programs and over operation sequences) + syntactic differential correspondence with the real SDK builder"
 TRUSTED = [
@@ -355,6 +356,25 @@ def run(ctx):
             res.failures.append({"what": "a RegFuture used as exit/branch condition did not stay live: "
                                          + det[0]["what"], "kf": None,
                                  "input": {"program": small, "outcomes": outs, "detail": det[:3]}})
+    # -- stream I: RegFuture.add / Future.add with every operand kind (int, Future, future-indexed Future) with and
+    #    without modulus, in histories with flushes: compile-only leak oracle (whether or not the model agrees),
+    #    then executed against direct evaluation
+    nI = 200 if ctx.thorough else 25
+    for _ in range(nI):
+        prog = H.add_history(rng, n_ops=rng.choice([20, 40]), flush_every=rng.choice([1, 4, 50]))
+        res.evaluations += 1
+        correspond(prog, "add-history")
+        f = _leak_check(H, prog, res, "add-history")
+        if f:
+            res.failures.append({"what": f["what"], "kf": None,
+                                 "input": _with_history(f, prog) if len(res.failures) < 6 else f})
+            continue
+        st, det = H.oracle(prog, [0] * 64)
+        det = [x for x in (det or []) if isinstance(x, dict) and x.get("feature") in ctrl_level]
+        res.count("add-history:" + ("fail" if det else st))
+        if det:
+            res.failures.append({"what": "add history: " + det[0]["what"], "kf": None,
+                                 "input": {"program": prog, "outcomes": [0] * 64, "detail": det[:3]}})
     # -- stream E: an explicit loop register that is in use must be rejected (never silently shared)
     for r_in_use, outer in ((0, "loop"), (0, "reg"), (1, "nested")):
         inner = {"k": "lbody", "s": 0, "e": 3, "d": 1, "r": r_in_use,
@@ -390,6 +410,13 @@ def run(ctx):
                 return {"what": "the real SDK raised %s compiling the %d-th %s" % (H.err_kind(r.first_exc or e), n,
                                                                                   E.form_name(form)),
                         "form": form, "repetition": n, "prefix": prefix}
+            for sub in r.subs[-1:]:
+                bad = H.loop_register_writes(sub)
+                if bad:
+                    return {"what": "a temporary of an EPR operation is a live loop register: inside the loop the "
+                                    "loop register is written by an instruction other than its own increment: "
+                                    + E.form_name(form), "form": form, "prefix": prefix,
+                            "writes": bad[:4], "subroutine": sub}
             after = sorted(x.index for x in r.mm._active_registers)
             if after != before:
                 # how long until it bites?
@@ -421,6 +448,27 @@ def run(ctx):
         if fl:
             res.failures.append({"what": fl["what"], "kf": None, "input": fl})
 
+    # EPR blocks with a loop of their own (context, post routine, sequential) nested in conn.loop / loop_body:
+    # static check of the emitted subroutine, active set before == after
+    nested = [f for f in forms if f["hw"] == "generic" and (f["api"] in E.CTX or f["mode"] in ("post", "seq"))]
+    for f in (nested if ctx.thorough else rng.sample(nested, min(40, len(nested)))):
+        res.evaluations += 1
+        res.count("epr-nested-in-loop")
+        outer = rng.choice(["loop", "lbody"])
+        prog = [{"k": outer, "s": 0, "e": 2, "d": 1, "body": [{"k": "epr", "form": f}]}, {"k": "flush"}]
+        r = H.RealRun(execute=False, hw=f["hw"]).run(prog)
+        if r.err is not None:
+            res.count("epr-nested-in-loop:" + str(r.err[1]))
+            continue
+        bad = [b for sub in r.subs for b in H.loop_register_writes(sub)]
+        act = r.snaps[0]["active"] if r.snaps else []
+        if bad or act:
+            res.failures.append({"what": "EPR block nested in a loop: " + (
+                "a live loop register is written inside its loop by an instruction other than its own increment"
+                if bad else "registers still active afterwards") + ": " + E.form_name(f), "kf": None,
+                "input": {"form": f, "program": None, "writes": bad[:4], "active_after": act,
+                          "subroutine": r.subs[0]}})
+
     def correspond_active(prog, stream, hw):
         res.evaluations += 1
         m = drv.call({"op": "sdk.run", "p": prog})
@@ -433,6 +481,12 @@ def run(ctx):
             res.disagreements.append({"stream": "sdk." + stream, "input": prog[:k + 2] if k >= 0 else prog,
                                       "model": {"err": m.get("err"), "active": ma[k] if k >= 0 else None},
                                       "code": {"err": r.err, "active": ra[k] if k >= 0 else None}})
+        for k, sub in enumerate(r.subs):
+            bad = H.loop_register_writes(sub)
+            if bad and sum(1 for x in res.failures if x["kf"] is None) < 12:
+                res.failures.append({"what": "a live loop register is written inside its loop by an instruction "
+                                             "other than its own increment (subroutine of flush %d)" % k,
+                                     "kf": None, "input": {"writes": bad[:4], "subroutine": sub, "stream": stream}})
         if r.err is not None and r.err[1] == "noRegister":
             res.failures.append({"what": "the real SDK ran out of registers in a sequence of completed operations "
                                          "(with EPR operations) at step %d" % r.err[0], "kf": None,
